@@ -583,6 +583,15 @@ fn gen_case(rng: &mut Rng, i: usize) -> Case {
             // definition slots: more FDEFs than slots, aliasing keys, negative / huge keys
             c.n_funcs = rng.below(4) as u16;
             let mut f = vec![];
+            if rng.chance(1, 3) {
+                // both tables have max(maxp, 64) slots: fill them to 62..=66 distinct keys
+                c.n_funcs = *rng.pick(&[0u16, 3, 64, 65]);
+                let n = 62 + rng.below(5) as i32;
+                let base = *rng.pick(&[0, 1, 30]);
+                for k in 0..n {
+                    fdef(&mut f, base + if rng.chance(1, 8) { 200 + k } else { k }, &[0x18]);
+                }
+            }
             for _ in 0..rng.below(6) {
                 let k = *rng.pick(&[0, 1, 2, 3, 7, -1, 300, 2, 0]);
                 fdef(&mut f, k, &[0x18]);
@@ -749,7 +758,7 @@ fn directed() -> Vec<Case> {
     add("jump-past-definition-end", &[0xB0, 0, OP_FDEF, 0xB0, 4, OP_JMPR, OP_ENDF, 0x18, 0x18, 0xB0, 1, OP_FDEF, OP_ENDF], &[], &[0xB1, 0, 11, OP_SCFS, 0xB0, 0, OP_CALL, 0xB1, 1, 22, OP_SCFS]);
     // FDEF with a key beyond 16 bits / negative: FreeType Too_Many_Function_Defs, skrifa defines it
     add("fdef-key-negative", &[0xB8, 0xFF, 0xFF, OP_FDEF, OP_ENDF], &[], &[0xB1, 0, 11, OP_SCFS]);
-    // more FDEFs than maxp.maxFunctionDefs (4 here), fewer than 64: FreeType allocates at least 64 slots (ttload.c)
+    // more FDEFs than maxp.maxFunctionDefs (4 here), fewer than 64: both allocate at least 64 slots (fixed 1409846)
     add("fdef-beyond-maxp-below-64", &[0xB0, 0, OP_FDEF, OP_ENDF, 0xB0, 1, OP_FDEF, OP_ENDF, 0xB0, 2, OP_FDEF, OP_ENDF, 0xB0, 3, OP_FDEF, OP_ENDF, 0xB0, 4, OP_FDEF, 0xB1, 2, 44, OP_SCFS, OP_ENDF], &[], &[0xB1, 0, 11, OP_SCFS, 0xB0, 4, OP_CALL]);
     // partial stack underflow: JROT with one cell
     add("jrot-partial-underflow", &[], &[], &[0xB1, 0, 11, OP_SCFS, 0xB0, 1, OP_JROT, 0xB1, 1, 22, OP_SCFS]);
